@@ -7,7 +7,7 @@ from ..harness import scn, gen, obs as O, pyeval, impl
 from . import base_scn
 
 pid = 'C06'
-gen_modules = ['tr_state', 'tr_validators', 'tr_has_patcher', 'tr_contracts', 'tr_decorators', 'tr_pin_contracts', 'tr_rest_validators', 'tr_rest_patcher', 'tr_rest_state', 'tr_rest_contractsconst']
+gen_modules = ['tr_state', 'tr_validators', 'tr_has_patcher', 'tr_contracts', 'tr_decorators', 'tr_pin_contracts', 'tr_rest_validators', 'tr_rest_patcher', 'tr_rest_state', 'tr_rest_contractsconst', 'tr_rest_decorators']
 model_targets = ['Sem/Scenario.v']
 hand_modelled = ['functools.update_wrapper / inspect metadata: not modelled (checked on the implementation by the monitor)']
 explanation = ('Theorems: with contracts disabled the generated wrappers are the original call; with every validator accepting, the sync/async '
@@ -203,6 +203,25 @@ def check(kind):
     deal.disable()
     try: kinds_kept_disabled = use(make(True)) == use(make(False))
     finally: deal.enable()
+    # bare aliases on callables that are not plain functions: the decorated callable still is the callable
+    import math
+    class Adder:
+        def __init__(self, k): self.k = k
+        def __call__(self, x): return x + self.k
+        def meth(self, x): return x * self.k
+    cands = {"lru_cache": functools.lru_cache(None)(lambda x: x + 1), "partial": functools.partial(lambda a, x: a + x, 10),
+             "bound method": Adder(3).meth, "builtin": math.floor, "callable instance": Adder(5), "plain": (lambda x: x - 1)}
+    alias_ok = True
+    for enabled_ in (True, False):
+        (deal.enable if enabled_ else deal.disable)()
+        try:
+            for label, orig in cands.items():
+                for alias in (deal.safe, deal.pure):
+                    try: got = alias(orig)(7)
+                    except BaseException as e: got = ("exc", type(e).__name__)
+                    if got != orig(7): alias_ok = f"{alias.__name__}({label}) [{'enabled' if enabled_ else 'disabled'}]: {got!r} != {orig(7)!r}"
+        finally:
+            deal.enable()
     # satisfied marker contracts nested in each other (the inner function is called for the first time from inside the outer one)
     @deal.has()
     def inner(x): return x
@@ -214,6 +233,7 @@ def check(kind):
     try: nested = outer(token) is token and middle(token) is token and inner(token) is token
     except BaseException as e: nested = type(e).__name__
     return {
+        "aliases_on_any_callable": alias_ok,
         "nested_has_transparent": nested,
         "wrapped_other_kind": kinds_kept, "wrapped_other_kind_disabled": kinds_kept_disabled,
         "name": d.__name__ == f.__name__, "qualname": d.__qualname__ == f.__qualname__, "doc": d.__doc__ == f.__doc__,
